@@ -62,6 +62,7 @@ SymT  == {Sy("in", ty, 2, 0, 2, 11, 0) : ty \in InTypes}
          \cup {Sy("out", ty, 1, 0, 3, 11, 0) : ty \in OutTypes \ {"fee"}}
          \cup {Sy("out", "fee", 0, 1, 3, 11, 0)}
          \cup {Sy("intra", "move", 1, f, 3, 11, 21) : f \in 0..1}
+         \cup {Sy("intra", "move", 2, 1, 3, 11, 11)}                      \* a transfer to the same account whose fee is still disposed of
          \cup {Sy("out", "sell", 1, 0, 3, 21, 0)}
 InstT == <<At(200, Noon), At(201, Noon)>>
 
